@@ -153,7 +153,7 @@ ck.finish({
     "samples": samples,
     "input_distribution": stats,
 }, assumptions=[
-    "x & mask_ (mask_ = capacity_-1, capacity_ a power of two) is modelled as x mod capacity_",
+    "x & mask_ (mask_ = capacity_-1, capacity_ a power of two) is written as x mod capacity_ in the model; C16/Mask.v proves the two equal under 64-bit wrap-around",
     "moved-from buffers are only re-allocated, destroyed or assigned to (not read) by the generated histories",
     "SimpleVector: Normal mode only (new T[n] / delete[] construct and destroy whole blocks); NoInit modes not modelled",
     "extraction: ExtrOcamlBasic only; nat/list stay Coq inductives",
